@@ -18,6 +18,7 @@ import random as pyrandom
 import re
 import subprocess
 import traceback
+import warnings
 
 import numpy as np
 
@@ -156,7 +157,7 @@ def static_report():
     for fn, errs in static_failing():
         for kind, det in errs:
             where = ''
-            if kind == 'GlobalDraw' and det.isdigit() and int(det) < len(sites):
+            if kind in ('GlobalDraw', 'Uninit') and det.isdigit() and int(det) < len(sites):
                 s = sites[int(det)]
                 where = f"{s['file']}:{s['line']} ({s['what']})"
             key = (fn, kind, det)
@@ -228,6 +229,14 @@ class Env:
         self.Y0 = [g.uniform(-1, 1, (1, 4, 2)), g.uniform(-1, 1, (2, 4, 2)), g.uniform(-1, 1, (2, 4, 1))]
         self.Y1 = [g.uniform(-1, 1, (1, 4, 1)), g.uniform(-1, 1, (1, 5, 1)), g.uniform(-1, 1, (1, 3, 1))]
         self.M = g.uniform(-1, 1, (8, 3))
+        # degenerate inputs: a mode of size 1; a constant index column; sparse training data (index pairs without a sample)
+        self.Yp1 = [np.abs(g.uniform(-1, 1, (1, 4, 2))) + 0.05, np.abs(g.uniform(-1, 1, (2, 1, 3))) + 0.05,
+                    np.abs(g.uniform(-1, 1, (3, 3, 1))) + 0.05]
+        self.A1 = [g.uniform(-1, 1, (1, 4, 2)), g.uniform(-1, 1, (2, 1, 2)), g.uniform(-1, 1, (2, 3, 1))]
+        self.I1 = self.I.copy()
+        self.I1[:, 1] = 0
+        self.Isp = np.array([[0, 0, 0], [1, 1, 1], [2, 2, 2], [3, 3, 3], [0, 1, 2], [1, 2, 3]])
+        self.ysp = np.arange(6.) + 1
 
     @staticmethod
     def f_cross(I):
@@ -314,6 +323,213 @@ def unseeded_recipes(E):
     return R
 
 
+def flag_recipes(E):
+    """unseeded functions called with a non-default flag that returns more data / takes another code path"""
+    tn = E.tn
+    R = {}
+    R['optima_func_tt_beam ret_all'] = lambda: tn.optima_func_tt_beam(cp(E.Y0), 3, ret_all=True)
+    R['optima_func_tt_beam ret_all k=25'] = lambda: tn.optima_func_tt_beam(cp(E.Y0), 25, ret_all=True)
+    R['optima_func_tt_beam ret_all k=25 other tensor'] = lambda: tn.optima_func_tt_beam(cp(E.A), 25, ret_all=True)
+    R['optima_func_tt_beam k_loc'] = lambda: tn.optima_func_tt_beam(cp(E.Y0), 4, 2, ret_all=True)
+    R['optima_func_tt_beam'] = lambda: tn.optima_func_tt_beam(cp(E.Y0), 3)
+    R['optima_tt_beam ret_all'] = lambda: tn.optima_tt_beam(cp(E.Y), 3, ret_all=True)
+    R['optima_tt_beam r2l ret_all'] = lambda: tn.optima_tt_beam(cp(E.Y), 2, l2r=False, ret_all=True)
+    R['optima_tt_max'] = lambda: tn.optima_tt_max(cp(E.Y), 3)
+    R['truncate orth=False'] = lambda: tn.truncate(tn.add(cp(E.Y), cp(E.Y2)), 1e-3, orth=False)
+    R['truncate is_eigh=False use_stab'] = lambda: tn.truncate(tn.add(cp(E.Y), cp(E.Y2)), 1e-3, is_eigh=False, use_stab=True)
+    R['norm use_stab'] = lambda: [tn.norm(cp(E.Y), use_stab=True), tn.mul_scalar(cp(E.Y), cp(E.Y), use_stab=True)]
+    R['cross info+cache passed'] = lambda: (lambda info, cache: [tn.cross(E.f_cross, cp(E.Y0), m=200, e=1e-10, info=info, cache=cache),
+                                                                {k: v for k, v in info.items() if k != 't'}, len(cache)])({}, {})
+    R['als info passed'] = lambda: (lambda info: [tn.als(cp(E.I), cp(E.y), cp(E.Y0), nswp=2, info=info),
+                                                  {k: v for k, v in info.items() if k != 't'}])({})
+    R['als adaptive sparse data'] = lambda: tn.als(cp(E.Isp), cp(E.ysp), cp(E.Y0), nswp=2, r=3, e=1e-8)
+    R['als_func info passed'] = lambda: (lambda info: [tn.als_func(cp(E.X), cp(E.yx), cp(E.Y0), nswp=2, info=info),
+                                                       {k: v for k, v in info.items() if k != 't'}])({})
+    R['func_get z skip_out'] = lambda: tn.func_get(cp(E.X[:5]) * 1.5, tn.func_int(cp(E.Y0)), -1., 1., z=-7.)
+    R['svd_incomplete'] = lambda: tn.svd_incomplete(cp(E.I[:40] % np.array([4, 4, 4])), cp(E.y[:40]), [4, 4, 4])
+    R['matrix_svd/skeleton rel'] = lambda: [tn.matrix_svd(cp(E.M), 1e-2), tn.matrix_skeleton(cp(E.M), 1e-2, rel=True, give_to='r')]
+    R['tt_to_qtt/qtt_to_tt'] = lambda: tn.qtt_to_tt(tn.tt_to_qtt(cp(E.A)), 2)
+    return R
+
+
+def degenerate_seeded_recipes(E):
+    """mode size 1, d = 1, m = 1 (an exception is a result too: it must be the same one)"""
+    tn = E.tn
+    R = {}
+    R['rand'] = [('n=[4,1,3]', lambda s: tn.rand([4, 1, 3], 2, seed=s)), ('d=1', lambda s: tn.rand([3], 1, seed=s))]
+    R['rand_norm'] = [('n=[1,1]', lambda s: tn.rand_norm([1, 1], 1, seed=s))]
+    R['rand_stab'] = [('n=[4,1,3]', lambda s: tn.rand_stab([4, 1, 3], 2, seed=s))]
+    R['sample_lhs'] = [('n=[4,1,3] m=5', lambda s: tn.sample_lhs([4, 1, 3], 5, seed=s)),
+                       ('n=[1,1] m=3', lambda s: tn.sample_lhs([1, 1], 3, seed=s)),
+                       ('d=1 m=1', lambda s: tn.sample_lhs([4], 1, seed=s)),
+                       ('n=[3,1] m=1', lambda s: tn.sample_lhs([3, 1], 1, seed=s))]
+    R['sample_rand'] = [('n=[4,1,3] m=1', lambda s: tn.sample_rand([4, 1, 3], 1, seed=s)),
+                        ('d=1', lambda s: tn.sample_rand([5], 4, seed=s))]
+    R['sample_rand_poi'] = [('d=1 m=1', lambda s: tn.sample_rand_poi([0.], [1.], 1, seed=s))]
+    R['sample_tt'] = [('n=[4,1,3]', lambda s: tn.sample_tt([4, 1, 3], 2, seed=s)), ('d=2 n=[1,1]', lambda s: tn.sample_tt([1, 1], 1, seed=s))]
+    R['sample'] = [('mode size 1, m=1', lambda s: tn.sample(cp(E.Yp1), 1, seed=s)), ('mode size 1, m=4', lambda s: tn.sample(cp(E.Yp1), 4, seed=s))]
+    R['sample_square'] = [('mode size 1, m=1', lambda s: tn.sample_square(cp(E.Yp1), 1, seed=s)),
+                          ('mode size 1, not unique m=3', lambda s: tn.sample_square(cp(E.Yp1), 3, unique=False, seed=s))]
+    R['sample_func'] = [('mode size 1', lambda s: tn.sample_func(cp(E.A1), seed=s))]
+    R['core_qr_rand'] = [('1x1x1 core', lambda s: tn.core_qr_rand(np.ones((1, 1, 1)), 1, seed=s))]
+    R['anova'] = [('constant column', lambda s: tn.anova(cp(E.I1), cp(E.y), 2, 1, seed=s)),
+                  ('one sample', lambda s: tn.anova(cp(E.I[:1]), cp(E.y[:1]), 1, 1, seed=s))]
+    return R
+
+
+def degenerate_unseeded_recipes(E):
+    tn = E.tn
+    R = {}
+    R['deg add/mul/truncate n=1'] = lambda: tn.truncate(tn.add(cp(E.Yp1), tn.mul(cp(E.Yp1), cp(E.Yp1))), 1e-6)
+    R['deg d=1 full/sum/norm'] = lambda: [tn.full([np.ones((1, 3, 1))]), tn.sum([np.ones((1, 3, 1))]), tn.norm([np.ones((1, 3, 1))])]
+    R['deg orthogonalize n=1'] = lambda: tn.orthogonalize(cp(E.Yp1), 0)
+    R['deg svd 1x1x1 / 4x1x3'] = lambda: [tn.svd(np.ones((1, 1, 1)) * 2.), tn.svd(tn.full(cp(E.Yp1)), 1e-8)]
+    R['deg cross n=1 mode'] = lambda: tn.cross(E.f_cross, cp(E.Yp1), m=100, e=1e-10, nswp=2)
+    R['deg als one sample'] = lambda: tn.als(cp(E.I[:1]), cp(E.y[:1]), cp(E.Y0), nswp=1)
+    R['deg als adaptive one sample'] = lambda: tn.als(cp(E.I[:1]), cp(E.y[:1]), cp(E.Y0), nswp=1, r=2)
+    R['deg optima_tt n=1'] = lambda: tn.optima_tt(cp(E.Yp1), 2)
+    R['deg optima_func_tt_beam k=1'] = lambda: tn.optima_func_tt_beam(cp(E.A1), 1, ret_all=True)
+    R['deg maxvol square'] = lambda: tn.maxvol(np.eye(3) + 0.1)
+    R['deg get_many m=1'] = lambda: tn.get_many(cp(E.Yp1), np.array([[1, 0, 2]]))
+    R['deg anova_func'] = lambda: tn.anova_func(cp(E.X[:3]), cp(E.yx[:3]), 2)
+    R['deg ind maps'] = lambda: [tn.ind_to_poi(np.array([[0, 0]]), -1., 1., [1, 1]), tn.poi_to_ind(np.array([[0.3]]), 0., 1., 4)]
+    return R
+
+
+POISON_VALUES = [2 ** 62 + 12345, -7, 1e300, -3.25]
+
+
+def poison(val):
+    """fill the allocator's free lists with blocks that hold `val`: arrays of every size class up to 128 KB are created and
+    freed just before the call, so np.empty storage that is read before it is written shows up as a different result"""
+    keep = []
+    dt = np.int64 if isinstance(val, int) else np.float64
+    for nb in list(range(8, 4097, 8)) + list(range(4096, 1 << 17, 512)):
+        for _ in range(3):
+            keep.append(np.full(nb // 8, val, dtype=dt))
+    del keep
+
+
+def churn(E, k):
+    """blocks of other library calls that churn the allocator"""
+    tn = E.tn
+    try:
+        with contextlib.redirect_stdout(io.StringIO()):
+            if k % 3 == 0:
+                tn.truncate(tn.add(cp(E.Y), cp(E.Y2)), 1e-3)
+                tn.full(cp(E.Y))
+            elif k % 3 == 1:
+                tn.cross(E.f_cross, cp(E.Y0), m=60)
+                tn.sample_lhs([5, 4, 3], 9, seed=k)
+            else:
+                tn.als(cp(E.I), cp(E.y), cp(E.Y0), nswp=1)
+                tn.optima_tt(cp(E.Y))
+    except Exception:
+        pass
+
+
+def all_thunks(E, seeds, degenerate=True):
+    """(key, thunk, finding_key) for every recipe: seeded with integer seeds, unseeded, flagged, degenerate"""
+    out = []
+    S = [seeded_recipes(E)] + ([degenerate_seeded_recipes(E)] if degenerate else [])
+    for R in S:
+        for name, lst in R.items():
+            if name == '_rand':
+                continue
+            for label, call in lst:
+                for sd in seeds:
+                    out.append(((name, label, sd), (lambda c=call, sd=sd: c(sd))))
+    U = [unseeded_recipes(E), flag_recipes(E)] + ([degenerate_unseeded_recipes(E)] if degenerate else [])
+    for R in U:
+        for name, call in R.items():
+            out.append(((name, '', None), call))
+    return out
+
+
+def finding_key_of(name):
+    return None
+
+
+def poison_probe(E, seeds, fails, stats, only=None):
+    """every recipe under differently poisoned allocators (after a block of other library calls): bitwise equal results"""
+    for j, (key, th) in enumerate(all_thunks(E, seeds)):
+        if only and key[0] not in only and 'poison' not in only:
+            continue
+        ref = None
+        for i, val in enumerate(POISON_VALUES[:1] + POISON_VALUES):
+            churn(E, i + j)
+            np.random.seed(3)
+            poison(val)
+            r, _ = run_call(th)
+            stats['evals'] += 1
+            stats['keys'].append(('poison',) + key + (i,))
+            if ref is None:
+                ref = r
+            elif r != ref and i == 1:
+                # same poison value, different result: this is dependence on earlier calls, not on freed memory
+                f = dict(what=f'{key[0]}: same arguments{" and integer seed" if key[2] is not None else ""}, but the second call '
+                              f'(after a block of other library calls) differs from the first (the result depends on earlier calls)',
+                         input=dict(recipe=['poison', key[0], key[1]], seed=key[2], mode='call-history'), got=short(r), expected=short(ref))
+                if finding_key_of(key[0]):
+                    f['finding_key'] = finding_key_of(key[0])
+                fails.append(f)
+                break
+            elif r != ref:
+                f = dict(what=f'{key[0]}: same arguments{" and integer seed" if key[2] is not None else ""}, different results '
+                              f'when freed memory holds different values (storage from np.empty is read before it is written: the '
+                              f'result depends on allocator history)',
+                         input=dict(recipe=['poison', key[0], key[1]], seed=key[2], poison=[repr(POISON_VALUES[0]), repr(val)],
+                                    mode='allocator-poison'), got=short(r), expected=short(ref))
+                if finding_key_of(key[0]):
+                    f['finding_key'] = finding_key_of(key[0])
+                fails.append(f)
+                break
+
+
+def history_probe(rng_seed, seeds, fails, stats, only=None):
+    """fresh interpreter state / first / second / after-calls-on-other-tensors: teneva is imported afresh (new default
+    objects), every recipe is called (A: first call, in order), then again in reverse order (B: second call, after everything
+    else), then after the same recipes on OTHER inputs (C), then on a second fresh import in reverse order (D: first call
+    with other predecessors).  All four must be bitwise equal."""
+    res = {}
+    for phase in ('A', 'D'):
+        np.random.seed(17)
+        pyrandom.seed(17)
+        tn = C.import_teneva()
+        E = Env(tn, C.Rng(rng_seed))
+        th = all_thunks(E, seeds, degenerate=False)
+        if only and 'history' not in only:
+            th = [(k, t) for k, t in th if k[0] in only]
+        order = th if phase == 'A' else th[::-1]
+        for key, t in order:
+            res.setdefault(key, []).append((phase, run_call(t)[0]))
+        if phase == 'A':
+            for key, t in th[::-1]:
+                res[key].append(('B', run_call(t)[0]))
+            E2 = Env(tn, C.Rng(rng_seed + 1))
+            for key, t in all_thunks(E2, seeds, degenerate=False):
+                if not only or 'history' in only or key[0] in only:
+                    run_call(t)
+            for key, t in th:
+                res[key].append(('C', run_call(t)[0]))
+    names = dict(A='first call after a fresh import', B='second call', C='call after calls on other inputs',
+                 D='first call after a fresh import, other predecessors')
+    for key, lst in res.items():
+        stats['evals'] += len(lst)
+        stats['keys'].append(('history',) + key)
+        for ph, r in lst[1:]:
+            if r != lst[0][1]:
+                f = dict(what=f'{key[0]}: same arguments{" and integer seed" if key[2] is not None else ""}, but the {names[ph]} '
+                              f'differs from the {names[lst[0][0]]} (the result depends on earlier calls)',
+                         input=dict(recipe=['history', key[0], key[1]], seed=key[2], phases=[lst[0][0], ph], mode='call-history'),
+                         got=short(r), expected=short(lst[0][1]))
+                if finding_key_of(key[0]):
+                    f['finding_key'] = finding_key_of(key[0])
+                fails.append(f)
+                break
+    C.import_teneva()
+
+
 def histories(E):
     """call histories that disturb every piece of state the property names; each is a list of thunks"""
     tn = E.tn
@@ -354,7 +570,8 @@ def run_call(th):
     """-> (canonical result, global state changed?)"""
     g0 = gstate()
     try:
-        with contextlib.redirect_stdout(io.StringIO()):
+        with contextlib.redirect_stdout(io.StringIO()), warnings.catch_warnings():
+            warnings.simplefilter('ignore')
             r = th()
     except Exception as e:  # an exception is a result too (it must be the same one)
         r = e
@@ -652,6 +869,18 @@ def run_dynamic(tn, rng, deep, only=None):
             fails.append(dict(what=f'{name}: harness raised {e!r}', input=dict(recipe=[name])))
     if not only or 'dict' in only:
         check_dicts(E, fails, stats)
+    if not only or 'history' in only:
+        try:
+            history_probe(rng.randrange(2 ** 31), seeds[-1:], fails, stats)
+        except Exception as e:
+            traceback.print_exc()
+            fails.append(dict(what=f'history probe: harness raised {e!r}', input=dict(recipe=['history'])))
+    if not only or 'poison' in only:
+        try:
+            poison_probe(E, seeds[-1:], fails, stats)
+        except Exception as e:
+            traceback.print_exc()
+            fails.append(dict(what=f'poison probe: harness raised {e!r}', input=dict(recipe=['poison'])))
     if not only or 'import' in only:
         try:
             import_probe(rng.randrange(2 ** 31), seeds[-1:], fails, stats, only=None)
@@ -707,7 +936,7 @@ def search(R, ctx, deep, hints):
     if deep and not fails:
         # the obligation or the correspondence broke: look harder (more worlds, more seeds) -- first at the flagged functions
         flagged = {h['input'].get('function', '').split('.')[-1] for h in hints if h.get('static')}
-        flagged = {('ANOVA' if 'ANOVA' in f else f) for f in flagged} | {'dict', 'import'}
+        flagged = {('ANOVA' if 'ANOVA' in f else f) for f in flagged} | {'dict', 'import', 'poison', 'history'}
         for only in ([sorted(flagged)] if flagged else []) + [None]:
             f2, st = run_dynamic(tn, ctx['rng'], deep=True, only=only)
             n += st['evals']
